@@ -3,6 +3,7 @@
 From Coq Require Import List NArith ZArith Bool Arith.
 From RecordUpdate Require Import RecordUpdate.
 From JV Require Import Bytes Msg SrvModel SrvLemmas SrvBasics SrvC07.
+From JV Require SrvNoCrash.
 Import ListNotations.
 
 (* 1. In every reachable state a reservation (id, k) belongs to the context-carrying call k with that id whose
@@ -17,13 +18,12 @@ Proof. exact SrvC07.c07_reserved_inflight. Qed.
 Print Assumptions c07_reserved_inflight.
 
 (* Conversely, while the server runs every context-carrying call whose reply has not been delivered is reserved
-   under its own index.  PARTIAL: proved for states that have not crashed (hypothesis crash s = None); the full
-   statement drops that hypothesis (see srv/SrvC07.v for what is missing). *)
-Theorem c07_inflight_reserved_partial : forall c s, reach c s -> running s = true -> crash s = None ->
+   under its own index (in every reachable state: none has crashed, SrvC08.no_crash). *)
+Theorem c07_inflight_reserved : forall c s, reach c s -> running s = true ->
   forall k t un, nth_error (tasks s) k = Some t -> t_hasctx t = true -> t_id t <> [] ->
     nth_error (units s) (t_unit t) = Some un -> u_st un <> UFinished -> assoc (t_id t) (used s) = Some k.
-Proof. exact SrvC07.c07_inflight_reserved_partial. Qed.
-Print Assumptions c07_inflight_reserved_partial.
+Proof. exact SrvNoCrash.c07_inflight_reserved. Qed.
+Print Assumptions c07_inflight_reserved.
 
 (* 2. A context is cancelled only by CancelRequest of the id of that very in-flight call, by a stop
       (Stop, or the reader's receive error), or by the delivery of its own reply. *)
